@@ -715,7 +715,7 @@ def check_records(what, o, ch, ref, refs, latest, model, add, here, counters):
                 add('C18', 'log_missing', f'{here}: {n} has run (uid {lr["uid"]}) but has no log')
                 continue
             msgs = [l[l.index('LABMSG'):] for l in lines if 'LABMSG' in l]
-            exp = [f'LABMSG uid={lr["uid"]} n=1 task={lr["task"]}', f'LABMSG uid={lr["uid"]} n=2 task={lr["task"]}']
+            exp = [f'LABMSG uid={lr["uid"]} n=1 task={lr["task"]}', f'LABMSG uid={lr["uid"]} n=1b task={lr["task"]}', f'LABMSG uid={lr["uid"]} n=2 task={lr["task"]}']
             if msgs != exp:
                 add('C18', 'log_content', f'{here}: log of {n} holds {msgs[:6]}{"..." if len(msgs) > 6 else ""}, the latest run of this location logged {exp}')
             if any('\x00' in l for l in lines):
